@@ -42,6 +42,24 @@ def long_run(core: list[Atom] | None = None, nmin: int = 5, nmax: int = 12, trip
             yield tuple(tri[i % 3] for i in range(nmax))
 
 
+def bit_pairs_with_tail(wide: list[Atom]):
+    """All ordered pairs of bit-field atoms (any storage types, incl. enum/char storage) followed by one ordinary field: the compiled
+    reader's unit tracking is only observable through the field *behind* the bit-fields."""
+    bits = [a for a in wide if a.bits]
+    tails = [a for a in wide if a.name in ("uint32", "uint16", "char", "in_t", "uint24", "char[n0]")]
+    u8 = [a for a in wide if a.name == "uint8"][0]
+    for a, b in itertools.product(bits, repeat=2):
+        for t in tails:
+            yield (a, b, t)
+            yield (u8, a, b, t)  # the other parity of the unit's offset
+
+
+def nolead_defs(atoms: list[Atom], k: int):
+    """Definitions *without* the leading uint8 n0 (the first field is the atom itself): first-field behaviour."""
+    for seq in product_defs([a for a in atoms if "n0" not in a.name], k):
+        yield ("!nolead", *names(seq))
+
+
 def names(seq) -> tuple[str, ...]:
     return tuple(a.name for a in seq)
 
@@ -64,7 +82,7 @@ def space(tier: str, which: str):
 
     def emit(gen):
         for seq in gen:
-            nm = names(seq)
+            nm = seq if (seq and isinstance(seq[0], str)) else names(seq)
             if nm not in seen:
                 seen.add(nm)
                 yield nm
@@ -79,7 +97,13 @@ def space(tier: str, which: str):
             yield from emit(product_defs(Cq, 3, 3))
             yield from emit(eof_defs(C, 1))
             yield from emit(long_run(C, 11, 12, triples=False))
+            yield from emit(bit_pairs_with_tail(W))
+            yield from emit(nolead_defs(W, 1))
+            yield from emit(nolead_defs(C, 2))
         else:
+            yield from emit(bit_pairs_with_tail(W))
+            yield from emit(nolead_defs(W, 2))
+            yield from emit(nolead_defs(C, 3))
             yield from emit(product_defs(W, 2))
             yield from emit(product_defs(C, 3, 3))
             yield from emit(eof_defs(W, 1))
@@ -91,7 +115,10 @@ def space(tier: str, which: str):
         if tier == "quick":
             yield from emit(product_defs(W, 2))
             yield from emit(eof_defs(C, 1))
+            yield from emit(nolead_defs(W, 1))
+            yield from emit(nolead_defs(C, 2))
         else:
+            yield from emit(nolead_defs(W, 2))
             yield from emit(product_defs(W, 2))
             yield from emit(product_defs(C, 3, 3))
             yield from emit(eof_defs(C, 1))
